@@ -276,6 +276,15 @@ def run_world(g, company, res):
             V.append(viol("loss_shape", "condition %d returned %r" % (i, loss), **mech(i)))
             return False
         losses[i].append(float(loss.detach().double().reshape(-1)[0]))
+        # a static sampler hands out points that its own inner sampler produced (not another sampler's cache)
+        for role, smp in b.samplers.items():
+            ev = b.trace.get("sample", r, role=role)
+            if ev and not W.from_own_inner(smp, ev[-1]["t"]):
+                V.append(viol("foreign_points", "evaluation %d of condition %d (%s): the %s static sampler returned a point "
+                              "set (shape %s) that its own inner sampler never produced"
+                              % (r, i, g["conds"][i]["kind"], role, tuple(ev[-1]["t"].shape)), **mech(i, role=role)))
+                return False
+            C["static_returns_checked"] = C.get("static_returns_checked", 0) + (1 if ev else 0)
         # data arguments belong to the rows this condition's own samplers produced in this call
         dv, j, cnt = W.judge_call(b, r, loss, only=("data",), judge_loss=False)
         res["judged"] += j
